@@ -151,6 +151,25 @@ fn p_str_views() {
     kani::cover!(a == 0 && b == 4, "whole string");
 }
 
+/// concrete strings (constant-folded by CBMC, so this stays decidable whatever the implementation does)
+#[kani::proof]
+fn p_str_concrete() {
+    let cases: [&str; 5] = ["", "a", "\u{df}", "na\u{ef}ve caf\u{e9}", "a\u{df}\u{20ac}b\u{1F600}"];
+    let lens: [usize; 5] = [0, 1, 2, 12, 11];
+    let mut i = 0;
+    while i < 5 {
+        let s = cases[i];
+        let c = CSliceRef::from_str(s);
+        assert!(c.len() == lens[i] && c.as_ptr() == s.as_ptr(), "C12 from_str keeps address and BYTE length (non-ASCII)");
+        let c2: CSliceRef<u8> = s.into();
+        assert!(c2.len() == lens[i] && c2.as_ptr() == s.as_ptr(), "C12 From<&str> keeps address and BYTE length (non-ASCII)");
+        let back = unsafe { c2.into_str() };
+        assert!(back.len() == lens[i] && back.as_ptr() == s.as_ptr(), "C12 into_str gives the same string");
+        i += 1;
+    }
+    kani::cover!(true, "end");
+}
+
 // ---- UTF-8 decision, modular: core::str::from_utf8[_mut] replaced by a recording stub ----------
 static mut SEEN_PTR: usize = 0;
 static mut SEEN_LEN: usize = 0;
